@@ -14,6 +14,8 @@ pub struct Bytes<'a> {
 impl<'a> Bytes<'a> {
     #[inline]
     pub fn new(slice: &'a [u8]) -> Bytes<'a> {
+        #[cfg(httparse_verif)]
+        verif::bump(&verif::NEW, 1);
         let start = slice.as_ptr();
         // SAFETY: obtain pointer to slice end; start points to slice start.
         let end = unsafe { start.add(slice.len()) };
@@ -64,6 +66,8 @@ impl<'a> Bytes<'a> {
 
     #[inline]
     pub fn peek_n<'b: 'a, U: TryFrom<&'a [u8]>>(&'b self, n: usize) -> Option<U> {
+        #[cfg(httparse_verif)]
+        verif::bump(&verif::PEEKS, 1);
         // TODO: once we bump MSRV, use const generics to allow only [u8; N] reads
         // TODO: drop `n` arg in favour of const
         // let n = core::mem::size_of::<U>();
@@ -87,6 +91,11 @@ impl<'a> Bytes<'a> {
     /// Caller must ensure that Bytes hasn't been advanced/bumped by more than [`Bytes::len()`].
     #[inline]
     pub unsafe fn advance(&mut self, n: usize) {
+        #[cfg(httparse_verif)]
+        {
+            verif::bump(&verif::ADVANCED, n as u64);
+            verif::bump(&verif::STEPS, 1);
+        }
         self.cursor = self.cursor.add(n);
         debug_assert!(self.cursor <= self.end, "overflow");
     }
@@ -157,6 +166,15 @@ impl<'a> Bytes<'a> {
     /// Must ensure invariant `bytes.start() <= ptr && ptr <= bytes.end()`.
     #[inline]
     pub unsafe fn set_cursor(&mut self, ptr: *const u8) {
+        #[cfg(httparse_verif)]
+        {
+            if ptr < self.cursor {
+                verif::bump(&verif::BACK, self.cursor as u64 - ptr as u64);
+            } else {
+                verif::bump(&verif::ADVANCED, ptr as u64 - self.cursor as u64);
+            }
+            verif::bump(&verif::STEPS, 1);
+        }
         debug_assert!(ptr >= self.start);
         debug_assert!(ptr <= self.end);
         self.cursor = ptr;
@@ -195,5 +213,34 @@ impl Iterator for Bytes<'_> {
         } else {
             None
         }
+    }
+}
+
+// Verification meter, compiled only with `--cfg httparse_verif`: counts cursor
+// travel so a simulator can charge deterministic "CPU ticks" to each parse call.
+#[cfg(httparse_verif)]
+#[allow(missing_docs)]
+pub mod verif {
+    use core::sync::atomic::{AtomicU64, Ordering};
+    pub(super) static NEW: AtomicU64 = AtomicU64::new(0);
+    pub(super) static ADVANCED: AtomicU64 = AtomicU64::new(0);
+    pub(super) static STEPS: AtomicU64 = AtomicU64::new(0);
+    pub(super) static PEEKS: AtomicU64 = AtomicU64::new(0);
+    pub(super) static BACK: AtomicU64 = AtomicU64::new(0);
+
+    #[inline]
+    pub(super) fn bump(c: &AtomicU64, n: u64) {
+        c.store(c.load(Ordering::Relaxed).wrapping_add(n), Ordering::Relaxed);
+    }
+
+    /// Returns and clears (cursors created, bytes advanced, advance calls, block peeks, bytes moved backwards).
+    pub fn take_counters() -> (u64, u64, u64, u64, u64) {
+        (
+            NEW.swap(0, Ordering::Relaxed),
+            ADVANCED.swap(0, Ordering::Relaxed),
+            STEPS.swap(0, Ordering::Relaxed),
+            PEEKS.swap(0, Ordering::Relaxed),
+            BACK.swap(0, Ordering::Relaxed),
+        )
     }
 }
